@@ -70,8 +70,10 @@ def run_check(prop, tier, seed, replay=None):
             cov_info = {}
             if tier == 'thorough':     # a transition cover of the exhaustively explored graphs as well
                 from . import cover
-                for cfg, cc in (('loop', False), ('loop_net', True)):
-                    behs, ne, ns = cover.behaviours(cfg, 'LoopImpl', rng=rng)
+                # full covers of the two-connection graph and of the NetAccepter graph; of the three-connection graph
+                # (816 033 transitions, 215 565 paths: 13 minutes) a seeded sample of 15 000 paths
+                for cfg, cc, lim in (('loop_cov', False, None), ('loop_net', True, None), ('loop', False, 15000)):
+                    behs, ne, ns = cover.behaviours(cfg, 'LoopImpl', rng=rng, limit=lim)
                     scs += [convert(b, rng, 'C20-cover-%s-%d' % (cfg, i), dict(cancelCloses=cc)) for i, b in enumerate(behs)]
                     cov_info['cover_' + cfg] = dict(edges=ne, states=ns, paths=len(behs))
             for k in range(2 if tier == 'quick' else 6):
